@@ -22,6 +22,7 @@ import (
 	"verif/internal/attrgen"
 	"verif/internal/drv"
 	"verif/internal/logparse"
+	"verif/internal/srcprobe"
 )
 
 var levels = []slog.Level{logger.LevelDebug, logger.LevelInfo, logger.LevelWarn, logger.LevelError, logger.LevelFatal}
@@ -286,6 +287,35 @@ func runOnce(cs Case, st *stats) (key, expected, observed string) {
 
 func sameLen(a, b logparse.JV) bool { return len(logparse.Show(a)) == len(logparse.Show(b)) }
 
+// judgeProbe judges one record of a separately built probe program: the line must be a JSON object
+// whose "source" names the file and line the Go runtime reports for the call.
+func judgeProbe(r srcprobe.Rec) (key, expected, observed string) {
+	k := fmt.Sprintf("source-file:%s:%s", r.Probe, r.Via)
+	got, err := logparse.DecodeObjectLine([]byte(r.Out))
+	if err != nil {
+		return "invalid-json:" + r.Probe, "one JSON object per line", fmt.Sprintf("%v: %q", err, r.Out)
+	}
+	for _, m := range got.Obj {
+		if m.Key != "source" {
+			continue
+		}
+		var file, line string
+		for _, mm := range m.V.Obj {
+			switch mm.Key {
+			case "file":
+				file = mm.V.Str
+			case "line":
+				line = mm.V.Num
+			}
+		}
+		if !srcprobe.FileOK(file, r.File) || line != strconv.Itoa(r.Line) {
+			return k, fmt.Sprintf("source names the caller: file %q (whole, or a tail of it beginning after a '/'), line %d", r.File, r.Line), fmt.Sprintf("file %q line %s in %q", file, line, r.Out)
+		}
+		return "", "", ""
+	}
+	return k, "a source member", fmt.Sprintf("none in %q", r.Out)
+}
+
 func clip(b []byte, n int) []byte {
 	if len(b) > n {
 		return b[:n]
@@ -353,6 +383,8 @@ func (mon) Plan(prop, tier string, seed int64) []drv.Shard {
 			out = append(out, drv.Shard{Name: "times", Args: a})
 			a, _ = json.Marshal(shardArgs{Kind: "pool"})
 			out = append(out, drv.Shard{Name: "pool", Args: a})
+			a, _ = json.Marshal(shardArgs{Kind: "srcprobe"})
+			out = append(out, drv.Shard{Name: "srcprobe", Args: a})
 		}
 		if p < 4 {
 			a, _ = json.Marshal(shardArgs{Kind: "sibling", Part: p, Parts: 4})
@@ -415,6 +447,40 @@ func (mn mon) Run(sh drv.Shard, c *drv.Ctx) {
 			}
 			return exec(cs, attrgen.ShapeKey(r))
 		})
+	case "srcprobe":
+		// records written by separately built programs (slash-less module path, main package at the
+		// module root; built with -trimpath, with -trimpath from file arguments, and plainly): the
+		// runtime's file name of the call site has one slash, a "./" prefix, or is absolute
+		probes := srcprobe.Probes()
+		if len(probes) == 0 {
+			c.Inconclusive("VERIF_SRCPROBES is not set: the probe programs are built by ./check")
+			return
+		}
+		for _, pp := range probes {
+			recs, err := srcprobe.Run(pp)
+			if err != nil {
+				c.Inconclusive("probe program: " + err.Error())
+				return
+			}
+			n := 0
+			for _, r := range recs {
+				if r.Kind != "json" {
+					continue
+				}
+				n++
+				c.Eval(1)
+				c.DistinctStr("srcprobe " + r.Probe + " " + r.Via + " " + r.File)
+				c.SetAdd("probe_call_site_files", r.File)
+				if k, e, o := judgeProbe(r); k != "" {
+					c.Violate(k, map[string]any{"srcprobe": r}, e, o)
+				}
+			}
+			if n == 0 {
+				c.Inconclusive("probe program " + pp + " wrote no json record")
+				return
+			}
+			c.Add("probe_records_judged", int64(n))
+		}
 	case "pool":
 		// every record below is logged right after a record of another size went through the shared
 		// buffer pool (sizes around the pool's keep/drop limit of 16 KiB and far beyond it)
@@ -514,6 +580,30 @@ func caseKey(cs Case) string {
 }
 
 func (mn mon) Replay(v drv.Violation, c *drv.Ctx) {
+	var pr struct {
+		R *srcprobe.Rec `json:"srcprobe"`
+	}
+	if json.Unmarshal(v.Case, &pr) == nil && pr.R != nil {
+		// re-run the probe program of that build variant and judge the same call site again
+		for _, pp := range srcprobe.Probes() {
+			recs, err := srcprobe.Run(pp)
+			if err != nil {
+				c.Inconclusive("replay: " + err.Error())
+				return
+			}
+			for _, r := range recs {
+				if r.Probe == pr.R.Probe && r.Kind == "json" && r.Via == pr.R.Via {
+					c.Eval(1)
+					if k, e, o := judgeProbe(r); k != "" {
+						c.Violate(k, map[string]any{"srcprobe": r}, e, o)
+					}
+					return
+				}
+			}
+		}
+		c.Inconclusive("replay: probe program " + pr.R.Probe + " not available (VERIF_SRCPROBES is set by ./check)")
+		return
+	}
 	var cs Case
 	if err := json.Unmarshal(v.Case, &cs); err != nil {
 		c.Inconclusive("replay: cannot decode case: " + err.Error())
